@@ -156,6 +156,11 @@ func gen(g *vh.Gen) {
 	g.Emit("lifet", "o0:P,p0:pass,k,DP,b0:1700,DP,f0,DP")
 	g.Emit("lifet", "o0:S,p0:helo,k,DS,b0:1700,DS,f0,DS")
 	g.Emit("lifet", "o0:P,p0:dele,k,b0:1500,DP,b0:600,DP,f0,DP")
+	// POP3 with STLS available: a session upgrades before / after shutdown was requested and completes its dialogue
+	g.Emit("stls", "o0:P,k,t0,p0:dele,DP,f0,DP")
+	g.Emit("stls", "o0:P,t0,k,p0:dele,f0,DP")
+	g.Emit("stls", "o0:P,p0:user,k,DP,t0,p0:pass,b0:300,f0,DP")
+	g.Emit("stls", "o0:P,o1:S,p1:data,k,t0,f1,p0:dele,f0,DP,DS")
 	// POP3 in ForceTLS mode: plain-text clients are dropped without leaking a session count
 	g.Emit("tls", "xP,o0:P,p0:pass,k,DP,f0,DP")
 	g.Emit("tls", "o0:P,p0:dele,xP,xP,k,nP,DP,f0,DP,DS")
